@@ -10,7 +10,7 @@ git checkout -q -- . ; git checkout -q --detach $(git -C /repo rev-parse HEAD)
 git apply $OUT/patch.diff || { echo "$NAME: patch does not apply on HEAD"; exit 9; }
 RES=""
 for P in "$@"; do
-  (cd /verif && VERIF_REPO=$WT VERIF_EVIDENCE_DIR=$OUT/recheck VERIF_REPLAY_DIR=$OUT/recheck/replays ./vcheck $P --tier quick > $OUT/recheck_$P.log 2>&1); RC=$?
+  (cd ${VERIF_HOME:-/verif} && VERIF_REPO=$WT VERIF_EVIDENCE_DIR=$OUT/recheck VERIF_REPLAY_DIR=$OUT/recheck/replays ./vcheck $P --tier quick > $OUT/recheck_$P.log 2>&1); RC=$?
   RES="$RES \"$P\": $RC,"
 done
 git checkout -q -- .
